@@ -37,6 +37,10 @@ def _history(sym, tier, which):
     else:
         cur = [sym.int(f"phys_base{i}", 0, 3) for i in range(N)]
         clk = [HybridLogicalClock(ids[i], wall_time=(lambda i=i: Instant(cur[i]))) for i in range(N)]
+        # arbitrary prior history: the last stamp may be ahead of the node's own physical clock (pushed by remote
+        # stamps) and carry any logical counter
+        for i in range(N):
+            clk[i]._last = HLCTimestamp(physical_ns=cur[i] + sym.int(f"hlc_last_ahead{i}", 0, 1), logical=sym.int(f"hlc_last_logical{i}", 0, 2), node_id=ids[i])
     events, hb, pool = [], [], []
     last_at = [None] * N
     wit = set()
@@ -432,7 +436,8 @@ HARNESSES = [
     _clock_h("c18_vector", vector, ["VectorClock.tick/send/receive/happened_before/is_concurrent/snapshot"],
              {"initial_vectors": "own entry symbolic [0,2]; each other node's view of it either up to date or 0"}),
     _clock_h("c18_hlc", hlc, ["HybridLogicalClock.now/send/receive", "HLCTimestamp.__lt__"],
-             {"physical_clock": "symbolic base [0,3] per node (arbitrary skew), symbolic increment [0,2] per step (arbitrary drift)"}),
+             {"physical_clock": "symbolic base [0,3] per node (arbitrary skew), symbolic increment [0,2] per step (arbitrary drift)",
+              "initial HLC state": "last stamp = own clock + symbolic [0,1], symbolic logical counter [0,2]"}),
     H(name="c18_counter_laws", fn=counter_merge_laws, shape="I", budget=lambda tier: 300.0,
       cubes=lambda tier: [{"a_missing_last": x, "b_missing_last": y} for x in (0, 1) for y in (0, 1)],
       require=lambda tier: ["states_differ"],
